@@ -31,6 +31,14 @@ U = [
     "al(1, 2)", "al()", "al(1)", "al(a, b)", "al((1 2))",
     "get-function(length)", 'get-function("length")', "get-function(nth)", "get-function(uf)", "get-function(uf2)",
     "calc(1px + 1%)", "calc(1% + 1px)", "calc(1px + 2%)", "calc(var(--a))", "min(1px, 1%)",
+    # the same value reached through different construction routes (values may carry hidden representation state)
+    "gray", "#808080", "hsl(0, 0%, 50%)", "hsl(120, 0%, 50%)", "hwb(120, 50%, 50%)", "mix(black, white)", "adjust-hue(gray, 90deg)",
+    "complement(hsl(40, 0%, 50%))", "desaturate(hsl(200, 60%, 50%), 100%)", "grayscale(hsl(10, 100%, 50%))",
+    "white", "hsl(0, 100%, 100%)", "hsl(240, 30%, 100%)", "lighten(hsl(90, 50%, 50%), 100%)", "black", "hsl(77, 40%, 0%)", "darken(red, 100%)",
+    "lighten(red, 0%)", "saturate(#f00, 0%)", "change-color(blue, $hue: 0)", "adjust-hue(hsl(240, 100%, 50%), 120deg)", "invert(cyan)",
+    "0.5 + 0.5", "math.div(96px, 1)", "1in + 0px", "0.1 + 0.2", "0.3", "unquote(\"a\")", "\"a\" + \"\"", "str-slice(\"ab\", 1, 1)", "to-lower-case(A)",
+    "join(1, 2)", "append(1, 2)", "join((1,), (2,))", "map-merge((a: 1), (b: 2))", "map-merge((b: 2), (a: 1))", "map-remove((a: 1, c: 3), c)",
+    "nth(((a: 1),), 1)", "if(true, null, 1)", "1 == 1", "not false",
 ]
 PRE = ("@function al($a...) { @return $a; }\n@function uf() { @return 1; }\n@function uf2() { @return 1; }\n")
 
